@@ -756,3 +756,56 @@ def box_as_ref(fw, call_node):
         raise WeaveError("R-box-as-ref: not an .as_ref() call")
     recv = " ".join(fw.text(call_node["receiver_span"]).split())
     fw.replace(call_node["span"][0], call_node["span"][1], "&**%s" % recv, "W9-R-box-as-ref")
+
+
+def _recv_call(fw, node, method):
+    """the method call that is the receiver of `node`, which must be `.method(..)`"""
+    kids = [c for c in fw.children.get(node["id"], []) if c["kind"] == "method_call" and c["span"] == node["receiver_span"]]
+    if len(kids) != 1 or kids[0]["method"] != method:
+        raise WeaveError("%s:%d R-std: receiver of .%s(..) is not .%s(..)" % (fw.rel, fw.line_of(node["span"][0]), node["method"], method))
+    return kids[0]
+
+
+def iter_partition(fw, part_node, ghost):
+    """R-std: `X.iter().partition(F)` -> `v_partition(X, F, Ghost(marks))` (verified helper: the elements that
+    satisfy F and those that do not, each in the original order, which is what `Iterator::partition` does)"""
+    it = _recv_call(fw, part_node, "iter")
+    x = " ".join(fw.text(it["receiver_span"]).split())
+    fw.replace(part_node["span"][0], part_node["paren_span"][0] + 1, "crate::verif_prelude::v_partition(%s, " % x, "W9-R-std-partition")
+    fw.insert(part_node["paren_span"][1] - 1, ", Ghost(%s)" % ghost, rule="W10", prio=8)
+
+
+def into_iter_rev_find(fw, find_node, ghost):
+    """R-std: `V.into_iter().rev().find(G)` -> `v_rfind(V, G, Ghost(marks))` (verified helper: the last element
+    of V that satisfies G)"""
+    rv = _recv_call(fw, find_node, "rev")
+    ii = _recv_call(fw, rv, "into_iter")
+    v = " ".join(fw.text(ii["receiver_span"]).split())
+    fw.replace(find_node["span"][0], find_node["paren_span"][0] + 1, "crate::verif_prelude::v_rfind(%s, " % v, "W9-R-std-rfind")
+    fw.insert(find_node["paren_span"][1] - 1, ", Ghost(%s)" % ghost, rule="W10", prio=8)
+
+
+def once_chain_map_find(fw, find_node, us, ps):
+    """R-std: `std::iter::once(A).chain(B.iter().copied()).map(F).find(G)` ->
+    `v_map_find_owned(v_once_chain(A, &B).as_slice(), F, G, Ghost(us), Ghost(ps))` (verified helpers: A followed by
+    the elements of B, mapped through F, first result that satisfies G)"""
+    mp = _recv_call(fw, find_node, "map")
+    ch = _recv_call(fw, mp, "chain")
+    once = [c for c in fw.children.get(ch["id"], []) if c["kind"] == "call" and c["span"] == ch["receiver_span"]]
+    if len(once) != 1 or once[0]["func"] != "std::iter::once" or len(once[0]["args"]) != 1 or len(ch["args"]) != 1:
+        raise WeaveError("%s:%d R-std: not of the form std::iter::once(A).chain(..)" % (fw.rel, fw.line_of(find_node["span"][0])))
+    cp = [c for c in fw.children.get(ch["id"], []) if c["kind"] == "method_call" and c["span"] == ch["args"][0]["span"]]
+    if len(cp) != 1 or cp[0]["method"] != "copied":
+        raise WeaveError("%s:%d R-std: chain argument is not B.iter().copied()" % (fw.rel, fw.line_of(find_node["span"][0])))
+    it = _recv_call(fw, cp[0], "iter")
+    a = " ".join(fw.text(once[0]["args"][0]["span"]).split())
+    b = " ".join(fw.text(it["receiver_span"]).split())
+    fw.replace(find_node["span"][0], mp["paren_span"][0] + 1,
+               "crate::verif_prelude::v_map_find_owned(crate::verif_prelude::v_once_chain(%s, &%s).as_slice(), " % (a, b), "W9-R-std-once-chain-map-find")
+    fw.replace(mp["paren_span"][1] - 1, find_node["paren_span"][0] + 1, ", ", "W9-R-std-once-chain-map-find")
+    fw.insert(find_node["paren_span"][1] - 1, ", Ghost(%s), Ghost(%s)" % (us, ps), rule="W10", prio=8)
+
+
+def eta_ctor(fw, path_node, param, ty, ctor_expr, ret, ens):
+    """R-eta: a constructor used as a function value, `.map(Type::Raw)` -> `.map(|p: T| -> (t: R) ensures .. { Type::Raw(p) })`"""
+    fw.replace(path_node["span"][0], path_node["span"][1], "|%s: %s| -> (%s) ensures %s, { %s }" % (param, ty, ret, ens, ctor_expr), "W7-R-eta")
